@@ -348,7 +348,7 @@ pub fn run(ctx: &Ctx) -> i32 {
     let s1e = SubReport::new("link-targets", "A", &format!("every sequence of ≤ {} tokens over {:?} ({} strings, incl. the empty one) as the link target of a symbolic-link entry at /link, /opt/link and ./a/b/link (targets that climb above the root, absolute, empty, with redundant components); oracle: Ok or Err, never a panic. non-trivial = accepted", llen, ltok, nl), a5);
 
     // ---- capability text (the acceptance iff is C19's; here: no panic and unknown text is an error)
-    let ctoks = ["cap_chown", "all", "bogus", ",", "=", "+", "e", "p", " ", "\t", "é", "\0"];
+    let ctoks = ["cap_chown", "all", "bogus", ",", "=", "+", "e", "p", " ", "\t", "é", "\0", "cap_", "E", "P", "_v2"];
     let n2 = strings_count(ctoks.len(), 4);
     let b = merge(par_fold(n2, Acc::new, |i, acc| {
         let mut t = vec![];
@@ -367,14 +367,14 @@ pub fn run(ctx: &Ctx) -> i32 {
             Ok(Ok(_)) => {
                 acc.nontrivial += 1;
                 acc.count("accepted");
-                if text.contains("bogus") || text.contains('é') || text.contains('\0') {
+                if !vlib::capsref::accepts(&text) {
                     acc.viol(Violation::new("capabilities", format!("unknown capability text {:?} accepted", text), case()).sig("clause", "unknown-capability-accepted").rank(i));
                 }
                 acc.sample(i, || json!({"caps": text, "accepted": true}));
             }
         }
     }));
-    let s2 = SubReport::new("capabilities", "A", &format!("every sequence of ≤ 4 tokens over {:?} ({} strings) through FileOptions::caps + with_file + build; oracle: no panic, rejection is InvalidCapabilities, text with an unknown name / non-ASCII / NUL is rejected", ctoks, n2), b);
+    let s2 = SubReport::new("capabilities", "A", &format!("every sequence of ≤ 4 tokens over {:?} ({} strings) through FileOptions::caps + with_file + build; oracle: no panic, rejection is InvalidCapabilities, text that the capability grammar (DESIGN A.4) does not accept — an unknown name such as cap_cap_chown or cap_chown_v2, upper-case flags, non-ASCII, NUL — is rejected", ctoks, n2), b);
 
     // ---- compression levels
     let mut levels: Vec<(String, CompressionWithLevel)> = vec![("none".into(), CompressionWithLevel::None)];
@@ -525,6 +525,37 @@ pub fn run(ctx: &Ctx) -> i32 {
         }
     }));
     let s6 = SubReport::new("scriptlets", "A", &format!("each of the nine scriptlet setters × 3 bodies × every interpreter list of ≤ 3 words over {:?} ({} lists: the built-in interpreter marker, its pieces, a marker ending in a multi-byte character, empty words): build + write, no panic", PWORDS, plists.len()), a7);
+    // ---- builders that start from Default::default() instead of new()
+    let mut a9 = Acc::new();
+    for (i, what) in ["build", "with a file", "with a scriptlet and a dependency", "build_and_sign", "with every optional text set to the empty string"].iter().enumerate() {
+        a9.evals += 1;
+        let case = json!({"kind": "default-builder", "then": what});
+        let signer = crate::keys::Key::Ed25519.signer(&ctx.repo);
+        let r = catch(|| {
+            let b = PackageBuilder::default().compression(none);
+            let p = match i {
+                0 => b.build(),
+                1 => b.with_file(&src, FileOptions::new("/f")).and_then(|b| b.build()),
+                2 => b.pre_install_script("true").requires(rpm::Dependency::any("x")).build(),
+                3 => b.build_and_sign(signer),
+                _ => b.description("").vendor("").url("").group("").packager("").release("").build(),
+            };
+            p.map(|p| {
+                let mut o = vec![];
+                let _ = p.write(&mut o);
+                let _ = rpm::Package::parse(&mut &o[..]);
+            })
+        });
+        match r {
+            Err(p) => a9.viol(panic_violation("default-builder", &p, case).rank(i as u64)),
+            Ok(Err(e)) => a9.count(&format!("rejected: {}", err_kind(&e))),
+            Ok(Ok(())) => {
+                a9.nontrivial += 1;
+                a9.count("accepted");
+            }
+        }
+    }
+    let s8 = SubReport::new("default-builder", "A", "PackageBuilder::default() (every required text empty) finished in five ways — built, with a file, with a scriptlet and a dependency, built and signed, with every optional text empty: Ok or Err, no panic, and what is built can be written and parsed without a panic", a9);
     // ---- file modes given as values with public fields: anything can be put into `permissions`
     let mut a6 = Acc::new();
     {
@@ -563,7 +594,7 @@ pub fn run(ctx: &Ctx) -> i32 {
     }
     ctx.finish(
         "exploration",
-        vec![s1, s1u, s1b, s1c, s1d, s1e, s1f, s7, s2, s3, s4, s6, s5],
+        vec![s1, s1u, s1b, s1c, s1d, s1e, s1f, s7, s2, s3, s4, s6, s8, s5],
         &[
             "which in-between destinations (e.g. '/a/.', '/../a') are accepted is not specified; they must only not panic and, if accepted, give a usable package",
             "timestamp arguments of non-integer types (chrono dates before 1970) are outside the statement's 'strings and numbers'",
